@@ -341,21 +341,39 @@ async fn batch(zone: &Zone, c: &mut Content, h: &mut Hist, names: &[String], spe
         }
     };
     let serial = c.get(&(APEX.to_string(), Rtype::SOA)).and_then(|(_, rds)| rds.iter().next().and_then(|rd| rd.split_whitespace().nth(2).and_then(|s| s.parse::<u32>().ok()))).unwrap_or(0);
-    let new_soa = RecSpec {
+    let mk_soa = |serial: u32| RecSpec {
         owner: APEX.to_string(),
         rtype: Rtype::SOA,
         ttl: 3600,
-        rdata: soa_rdata(serial.wrapping_add(1)),
+        rdata: soa_rdata(serial),
     };
+    let mut next_serial = serial.wrapping_add(1);
+    let mut new_soa = mk_soa(next_serial);
     // Plan the ops first (same for both interfaces).
     enum Op {
         Add(RecSpec),
         Del(RecSpec),
         DelName(String, Vec<RecSpec>),
         ReplaceAll(Vec<RecSpec>),
+        /// Commit what was done so far and go on in the same writer (what
+        /// an IXFR with several difference sequences does): the content
+        /// committed here, and the SOA the next part starts with.
+        Split(Content, RecSpec),
     }
     let mut ops = Vec::new();
+    let mut last_committed: Option<Content> = None;
     for _ in 0..n_ops {
+        if sim::chance("batch.split", 1, 6) {
+            let soa = new_soa.clone();
+            ops.push(Op::Split(working.clone(), soa.clone()));
+            last_committed = Some(working.clone());
+            working.remove(&(APEX.to_string(), Rtype::SOA));
+            apply_add(&mut working, &soa);
+            next_serial = next_serial.wrapping_add(1);
+            new_soa = mk_soa(next_serial);
+            sim::stat("probe.multi_part_update");
+            continue;
+        }
         match sim::draw("batch.op", 10) {
             0..=4 => {
                 if let Some(r) = gen_legal_rec(&working, names, specials_via_write) {
@@ -482,10 +500,31 @@ async fn batch(zone: &Zone, c: &mut Content, h: &mut Hist, names: &[String], spe
                         note_nodes(&mut h.written_nodes, o);
                     }
                     up.apply(ZoneUpdate::DeleteAllRecords).await.expect("apply");
-                    for r in recs.iter().filter(|r| r.rtype != Rtype::SOA) {
-                        note(h, r);
+                    // (The SOA too: a later part boundary commits what is
+                    // there, and Finished replaces the SOA anyway.)
+                    for r in recs.iter() {
+                        if r.rtype != Rtype::SOA {
+                            note(h, r);
+                        }
                         up.apply(ZoneUpdate::AddRecord(r.record())).await.expect("apply");
                     }
+                }
+                Op::Split(snap, soa) => {
+                    ev!("  BeginBatchDelete (commit, reopen) + BeginBatchAdd {}", soa.line());
+                    let cur_soa = snap
+                        .get(&(APEX.to_string(), Rtype::SOA))
+                        .and_then(|(ttl, rds)| {
+                            rds.iter().next().map(|rd| RecSpec {
+                                owner: APEX.to_string(),
+                                rtype: Rtype::SOA,
+                                ttl: *ttl,
+                                rdata: rd.clone(),
+                            })
+                        })
+                        .unwrap_or_else(|| soa.clone());
+                    up.apply(ZoneUpdate::BeginBatchDelete(cur_soa.record())).await.expect("apply");
+                    h.commits += 1;
+                    up.apply(ZoneUpdate::BeginBatchAdd(soa.record())).await.expect("apply");
                 }
             }
             step().await;
@@ -495,6 +534,9 @@ async fn batch(zone: &Zone, c: &mut Content, h: &mut Hist, names: &[String], spe
             sim::stat("fault.writer_abort");
             h.aborts += 1;
             drop(up);
+            if let Some(lc) = last_committed {
+                *c = lc;
+            }
             return;
         }
         // Finished() sets the SOA.
@@ -503,7 +545,7 @@ async fn batch(zone: &Zone, c: &mut Content, h: &mut Hist, names: &[String], spe
         up.apply(ZoneUpdate::Finished(new_soa.record())).await.expect("finish");
     } else {
         let mut w: Box<dyn WritableZone> = zone.write().await;
-        let root = w.open(sim::chance("batch.diff", 1, 2)).await.expect("open");
+        let mut root = w.open(sim::chance("batch.diff", 1, 2)).await.expect("open");
         // Apply through RRset replacement, tracking the evolving content.
         let mut cur = c.clone();
         for op in &ops {
@@ -566,6 +608,17 @@ async fn batch(zone: &Zone, c: &mut Content, h: &mut Hist, names: &[String], spe
                         }
                     }
                 }
+                Op::Split(_, soa) => {
+                    ev!("  commit, open again on the same writer, SOA {}", soa.line());
+                    drop(root);
+                    w.commit(false).await.expect("commit");
+                    h.commits += 1;
+                    root = w.open(sim::chance("batch.diff", 1, 2)).await.expect("open");
+                    cur.remove(&(APEX.to_string(), Rtype::SOA));
+                    apply_add(&mut cur, soa);
+                    let (ttl, rds) = cur.get(&(APEX.to_string(), Rtype::SOA)).cloned().unwrap();
+                    root.update_rrset(rrset_of(Rtype::SOA, ttl, &rds, APEX)).await.expect("update_rrset");
+                }
             }
             step().await;
         }
@@ -575,15 +628,20 @@ async fn batch(zone: &Zone, c: &mut Content, h: &mut Hist, names: &[String], spe
             sim::stat("fault.writer_abort");
             h.aborts += 1;
             drop(w);
+            if let Some(lc) = last_committed {
+                *c = lc;
+            }
             return;
         }
         // Commit with a serial bump when the SOA was not replaced.
-        let replaced_soa = ops.iter().any(|o| matches!(o, Op::ReplaceAll(_)));
+        // (commit(true) leaves an SOA alone that the writer itself wrote
+        // since it was opened: a full replacement, or the start of a part.)
+        let replaced_soa = ops.iter().any(|o| matches!(o, Op::ReplaceAll(_) | Op::Split(..)));
         if !replaced_soa && working.contains_key(&(APEX.to_string(), Rtype::SOA)) {
             working.remove(&(APEX.to_string(), Rtype::SOA));
             apply_add(&mut working, &new_soa);
             // Keep the previous SOA TTL, as commit(bump) does.
-            if let Some((ttl, _)) = c.get(&(APEX.to_string(), Rtype::SOA)) {
+            if let Some((ttl, _)) = cur.get(&(APEX.to_string(), Rtype::SOA)) {
                 working.get_mut(&(APEX.to_string(), Rtype::SOA)).unwrap().0 = *ttl;
             }
             w.commit(true).await.expect("commit");
